@@ -197,4 +197,7 @@ func (p *Pool) Put(x any) {
 	p.mu.Lock()
 	p.items = append(p.items, x)
 	p.mu.Unlock()
+	// handing an object to the pool publishes it: another thread may take it
+	// before the releasing one has finished whatever it still does with it.
+	sched.Point("Pool.Put(done)")
 }
